@@ -175,7 +175,8 @@ def cases(draw, fast=True):
     two = fam != "file" and draw(st.integers(0, 2)) == 0
     # a train is only informative if the two bunches' wakes differ by much more than the tolerance
     dlo = 0.3 if two else 0.05
-    zooms = [0.7, 1.0, 1.2, 1.5]
+    # "after relaxation from any start": also very short bunches whose tails are exactly zero on the grid
+    zooms = [0.7, 1.0, 1.2, 1.5, 0.15, 0.25]
     if not two and draw(st.integers(0, 5)) == 0:
         # many steps per synchrotron period: the wake kick per step is a few thousandths of a cell or less, and the start
         # is far from equilibrium, so the kick map has to follow small changes of the wake over a long history (round-4
